@@ -25,12 +25,21 @@ fn ulp(x: f64) -> f64 {
 }
 
 pub fn build_probed(cfg: &Cfg, check_contig: bool) -> Result<(Runner<f64>, Option<Arc<ProbeStats>>), String> {
-    if cfg.kind.is_sinc() {
+    build_probed_via(cfg, check_contig, false)
+}
+
+/// `boxed`: the instance is driven through `Box<dyn VecResampler<f64>>`
+pub fn build_probed_via(cfg: &Cfg, check_contig: bool, boxed: bool) -> Result<(Runner<f64>, Option<Arc<ProbeStats>>), String> {
+    let (r, stats) = if cfg.kind.is_sinc() {
         let (p, stats) = Probe::<f64>::new(cfg.flen(), cfg.oversampling, check_contig);
-        let r = AnyRes::<f64>::build_with(cfg, Box::new(p)).map_err(|e| format!("{}", e))?;
-        Ok((Runner::new(cfg, Box::new(r), Sig::index()), Some(stats)))
+        (AnyRes::<f64>::build_with(cfg, Box::new(p)).map_err(|e| format!("{}", e))?, Some(stats))
     } else {
-        Ok((Runner::<f64>::fresh(cfg, Sig::index())?, None))
+        (AnyRes::<f64>::build(cfg).map_err(|e| format!("{}", e))?, None)
+    };
+    if boxed {
+        Ok((Runner::new(cfg, Box::new(Boxed(r.boxed())), Sig::index()), stats))
+    } else {
+        Ok((Runner::new(cfg, Box::new(r), Sig::index()), stats))
     }
 }
 
@@ -62,14 +71,19 @@ impl Monitor for Warp {
         hp.allow_vecs = true;
         hp.mask_mode = Some(MaskMode::None);
         hp.ratio_weight = *rng.pick(&[0.2, 0.35, 0.5]);
-        let ops = gen_history(&mut rng, &cfg, &hp);
-        let desc = J::obj().with("sample", J::s("f64")).with("cfg", cfg.json()).with("signal", J::s("index x[n]=n+1")).with("ops", ops_json(&ops));
+        let mut ops = gen_history(&mut rng, &cfg, &hp);
+        // 10 %: through the object-safe wrapper (no reset / set_chunk_size there)
+        let boxed = rng.chance(0.1);
+        if boxed {
+            ops.retain(|o| !matches!(o, Op::Reset | Op::SetChunk(_)));
+        }
+        let desc = J::obj().with("sample", J::s("f64")).with("cfg", cfg.json()).with("signal", J::s("index x[n]=n+1")).with("through_boxed_vecresampler", J::b(boxed)).with("ops", ops_json(&ops));
         set_desc(&desc);
         let mut cr = CaseResult { desc, ..Default::default() };
         if ctx.describe {
             return cr;
         }
-        let (mut run, pstats) = match build_probed(&cfg, true) {
+        let (mut run, pstats) = match build_probed_via(&cfg, true, boxed) {
             Ok(x) => x,
             Err(e) => {
                 cr.inconclusive = Some(e);
